@@ -406,7 +406,10 @@ Definition sched (s : state) : option event :=
                   match at_num (src s) h with
                   | Some _ => Some (FetchOk h)
                   | None => match lat s with
-                            | None => Some FetchLatest
+                            | None => match src s with
+                                      | [] => Some FetchLatestErr   (* a source without blocks has no latest header *)
+                                      | _ :: _ => Some FetchLatest
+                                      end
                             | Some _ => Some (ReorgCheck h)
                             end
                   end
@@ -449,3 +452,22 @@ Fixpoint sched_trace (n : nat) (s : state) : list event :=
            | None => []
            end
   end.
+
+(* ---------- measure for the fair scheduler: distance, then pipeline phase, then owed sends ---------- *)
+Definition base (s : state) : nat :=
+  match rv s with
+  | RRun _ cmp _ fresh =>
+      match fresh, cmp with
+      | true, None => 3 | true, Some _ => 2 | false, None => 10 | false, Some _ => 9
+      end
+  | RIdle =>
+      if canc s then 8
+      else match at_num (pend s) (next_h s) with
+           | Some _ => 4
+           | None => match at_num (infl s) (next_h s) with
+                     | Some _ => 5
+                     | None => match lat s with Some _ => 6 | None => 7 end
+                     end
+           end
+  end.
+Definition fair_measure (s : state) : nat := (dist s * 64 + base s * 4 + length (obox s))%nat.
